@@ -415,13 +415,25 @@ DriftQuoQuantize(ev) ==
       n == IF ev.op = "quo" THEN (ev.x.n # ev.y.n) ELSE ev.x.n
   IN ~(a.f = ev.res.f /\ (a.f = FIN => (a.c = ev.res.c /\ a.e = ev.res.e /\ ev.res.n = n)) /\ BitSet(ev.fl) = a.fl)
 
+\* a replayed TLC-generated history (Gen_Hist) against the state the specification predicted step by step
+SameV(a, b) == a.f = b.f /\ (a.f \in {FIN, INF} => a.n = b.n) /\ (a.f = FIN => (a.c = b.c /\ a.e = b.e))
+DriftHist(ev) ==
+  ev.k = "mh" /\ "pred" \in DOMAIN ev /\
+  \E i \in 1..Len(ev.steps) :
+     LET st == ev.steps[i]  pr == ev.pred[i] IN
+     st.panic = "" /\ st.ref.panic = "" /\
+     ~(/\ \A j \in 1..Len(st.post) : SameV(st.post[j], pr.regs[j])
+       /\ (ev.mode = "ed" => (st.edfl = pr.fl /\ st.ederr = pr.err))
+       /\ (ev.mode = "ctx" => st.fl = pr.fl)
+       /\ st.cnt = pr.cnt)
+
 \* table.go NumDigits against its transcription AlgNumDigits (values up to 240 digits)
 DriftNumDigits(ev) ==
   ev.k = "nd" /\ ev.panic = "" /\ ev.p10 < 0 /\ Len(ev.b) <= 80 /\ NumDigitsAlg(ev.b) # ev.nd
 
 Init == l = 0
 Next == l < Len(T) /\ l' = l + 1
-Inv == l = 0 \/ (/\ ((DriftRound(T[l]) \/ DriftArith(T[l]) \/ DriftQuoQuantize(T[l]) \/ DriftNumDigits(T[l])) => PrintT(<<"DRIFT", l, T[l].k, IF T[l].k = "a" THEN T[l].op ELSE "">>))
+Inv == l = 0 \/ (/\ ((DriftRound(T[l]) \/ DriftArith(T[l]) \/ DriftQuoQuantize(T[l]) \/ DriftNumDigits(T[l]) \/ DriftHist(T[l])) => PrintT(<<"DRIFT", l, T[l].k, IF T[l].k = "a" THEN T[l].op ELSE "">>))
                   /\ LET v == Verdict(T[l]) IN (v = {} \/ PrintT(<<"VIOL", l, v>>)))
 Done == PrintT(<<"VALIDATED", Len(T)>>)
 =============================================================================
